@@ -70,6 +70,7 @@ type modEntry struct {
 	comp string
 	ref  string // "" = whole component
 	text string
+	cond string // "" or a guard (conditional frame entry of an extern)
 }
 
 type loopInfo struct {
